@@ -13,6 +13,18 @@ CHECKS = {
          "Exploration: ~70k (quick) / 2.4M (thorough) texts; the corpus block is identical for every seed. Held = no panic / stack overflow / watchdog hang / bad diagnostic on any generated text; accept/reject is not judged.",
          "Bounds: 64 KiB, depth 64; duplicate/splice not applied inside deftemplate forms (exponential by design); termination judged by a 20 s watchdog per 12 texts.",
          "DESIGN.md §4 C03"),
+ "C04": ("reference model of the layered keymap (appendix E.1) driven by the generator's own config description; per-tick exact comparison of kanata's OS output with the model's",
+         "Exploration with an exhaustive part: every physically consistent history of 2..6 (quick) / 2..7 (thorough) events over 3 keys with gaps {0,1,2} on 8 fixed configs (1.6M / 14M histories, seed-independent), plus 2.4k / 50k random fragment configs x 6 histories of 20-60 events incl. zero-gap bursts with up to 29 pending events.",
+         "deflayermap is not combined with block-unmapped-keys (guide silent); histories are cut at the first press resolved with more held layers than the resolution stack can hold (known finding). Trusted: simulated output; the model itself (validated against the tree in prototypes).",
+         "DESIGN.md §4 C04, appendix E.1"),
+ "C05": ("model-free invariants (exactly one of tap/hold/timeout witness per tap-hold press, nothing overtakes a pending decision, buffered keys replayed in order) + per-tick equality with the tap-hold reference model (appendix E.2)",
+         "Exploration with an exhaustive part: 7 variants x H x tap-repress window x concurrent-tap-hold x rapid-event-delay, every schedule up to N events (5/4 quick, 6/5 thorough) over {tap-hold key, b, c} with gaps {0,1,H-1,H,H+1} (9.7M / 157M schedules), plus 3k / 60k random cases with two interleaved tap-hold keys judged by the invariants only.",
+         "Boundary conventions are those of appendix A (calibrated on the tree, detect changes of them); nested tap-holds and tap-hold inside multi not generated; timing with two queued tap-hold keys judged by invariants only.",
+         "DESIGN.md §4 C05, appendix E.2"),
+ "C06": ("per-tick equality with the one-shot reference model (appendix E.3, generalised to key/chord/layer) + statement-level invariants read directly off the OS stream on five schedule families + stacked one-shot histories (17-40 taps)",
+         "Exploration with an exhaustive part: 3 shapes x 4 end variants x T x rapid-event-delay, every schedule with gaps {0,1,T-1,T,T+1} up to N events (6.3M quick / 129M thorough), 176k direct statement checks, 4k / 80k stacked histories crossing the 16-slot table.",
+         "Mixed-variant stacks judged only by the variant-independent invariants (the code uses the most recent variant, the guide says the first). Plain follow-up keys are plain key codes only.",
+         "DESIGN.md §4 C06, appendix E.3"),
  "C08": ("independent macro expander + trace checker over the OS stream projected onto each macro's private key alphabet (order, multiplicity, one step per tick, minimum delays, released at end/after cancellation at every step index, repeat restarts only while held)",
          "Exploration: 10k (quick) / 300k (thorough) cases over all eight macro variants: single, cancelled at every step index, repeating, 2-4 concurrent, and 5-8 concurrent (overflow). With at most four concurrent macros everything must hold; eviction of the oldest by a fifth macro is the listed known finding.",
          "Group modifiers (S-(...)) may be released in any order (the guide does not fix it; chords must release in reverse). One custom item per config, judged for macro / macro-repeat only. Trusted: simulated output.",
